@@ -105,7 +105,7 @@ pub fn blocked_recv_lap<F: Fl, const KIND: u8>(cap: u64, idle_limit: u32, lap: u
     sched::configure(depth, others, sched::WIN_LOADS | (1 << 3) | (1 << 4) | (1 << 6) | (1 << 7) | (1 << 9), 1);
     sched::st().idle_limit = if idle_limit == 0 { 24 } else { idle_limit };
     let mut w = World::<F>::new(cap);
-    set_world::<F>(&mut w);
+    set_world::<F>(&mut *w);
     // lap the ring once: `lap` = N sends each followed by a receive
     let mut i = 0;
     while i < lap {
@@ -179,7 +179,7 @@ pub fn blocked_recv_lap<F: Fl, const KIND: u8>(cap: u64, idle_limit: u32, lap: u
         }
     }
     ledger::check_c01(1, 0);
-    std::mem::forget(w);
+    let _ = &w; // ManuallyDrop: never dropped
 }
 
 pub type MpBlk00 = MpmcPlain<u8, Blocking<0, 0>>;
